@@ -69,6 +69,7 @@ def main():
         sys.exit(3)
     emit({"ev": "ready", "pid": os.getpid()})
     watchdog = cfg.get("watchdog_s", 120)
+    SIM.rearm_cb = lambda: faulthandler.dump_traceback_later(watchdog, exit=True)
 
     def run_one(plan):
         faulthandler.dump_traceback_later(watchdog, exit=True)
